@@ -1,6 +1,7 @@
 (** C04 proofs, part 6: statements -- import naming, export naming, spread export, duplicate names. *)
 From Coq Require Import List Arith Bool NArith Lia.
 From WacV Require Import Str Token Lexer Semver Names Ast Graph Resolver LangSpec ResolverProofs ResolverNew.
+From WacV Require GraphInv.
 Import ListNotations.
 Local Open Scope nat_scope.
 
@@ -53,12 +54,90 @@ Section Stmts.
 
   Lemma export_ok (g : gstate) n e g' :
     export_ u g n e = (g', OUnit) ->
-    alist_get N.eqb (exports g) e = None /\ u_export_name_ok u e = true /\ exports g' = exports g ++ [(e, n)] /\
-    get_node g n <> None.
+    alist_get N.eqb (exports g) e = None /\ u_export_name_ok u e = true /\
+    exports g' = exports_renamed g n ++ [(e, n)] /\ get_node g n <> None.
   Proof.
     unfold export_. destruct (alist_get N.eqb (exports g) e); [discriminate|].
     destruct (u_export_name_ok u e); [|discriminate]. cbn [negb]. unfold update_node.
     destruct (get_node g n); [|discriminate]. intros [= <-]. cbn. repeat split; auto. discriminate.
+  Qed.
+
+  (** only a type definition is renamed by [export]; any other node keeps its earlier export names *)
+  Lemma exports_renamed_nondef (g : gstate) n :
+    (forall nd, get_node g n = Some nd -> nk nd <> NDef) -> exports_renamed g n = exports g.
+  Proof.
+    intros H. unfold exports_renamed. destruct (get_node g n) as [nd|]; auto.
+    specialize (H nd eq_refl). destruct (nk nd); auto. now contradiction H.
+  Qed.
+
+  (** no alias edge leads to a type definition (every graph built through the API: the target of an
+      alias edge is an alias node, C06 [alias_inv_reachable]); boolean, so that it can be decided *)
+  Definition alias_nondef_b (g : gstate) : bool :=
+    forallb (fun ed => match ek ed with
+                       | EAlias _ => match get_node g (etgt ed) with
+                                     | Some nd => match nk nd with NDef => false | _ => true end
+                                     | None => true
+                                     end
+                       | _ => true
+                       end) (edges g).
+
+  Lemma alias_nondef_spec g :
+    alias_nondef_b g = true <->
+    forall ed i nd, In ed (edges g) -> ek ed = EAlias i -> get_node g (etgt ed) = Some nd -> nk nd <> NDef.
+  Proof.
+    unfold alias_nondef_b. rewrite forallb_forall. split.
+    - intros H ed i nd Hin K G. specialize (H ed Hin). rewrite K, G in H. intros E. rewrite E in H. discriminate.
+    - intros H ed Hin. destruct (ek ed) as [i|j|] eqn:K; auto. destruct (get_node g (etgt ed)) as [nd|] eqn:G; auto.
+      specialize (H ed i nd Hin K G). destruct (nk nd); try reflexivity. now contradiction H.
+  Qed.
+
+  Lemma alias_nondef_alias g item e g' n :
+    nofree g -> alias_nondef_b g = true -> alias u g item e = (g', ONode n) ->
+    alias_nondef_b g' = true /\ (forall nd, get_node g' n = Some nd -> nk nd <> NDef).
+  Proof.
+    intros [F Fp] AN. rewrite alias_nondef_spec in AN. unfold alias.
+    destruct (get_node g item) as [nd0|]; [|discriminate].
+    destruct (u_inst_exports u (nitem nd0)) as [ex|]; [|discriminate].
+    destruct (get_full ex e 0) as [[index kind]|]; [|discriminate].
+    destruct (find _ (outgoing g item)) as [ed|] eqn:Fd.
+    - intros [= <- <-]. split; [now apply alias_nondef_spec|].
+      apply find_some in Fd as [Hin K]. unfold outgoing in Hin. apply filter_In in Hin as [Hin _].
+      destruct (ek ed) as [i|j|] eqn:Ke; try discriminate. intros nd G. exact (AN ed i nd Hin Ke G).
+    - destruct (add_node g (mk_node NAlias kind (npkg nd0))) as [s1 idx] eqn:A.
+      apply add_node_nofree in A as (-> & Hn & _ & He & _); auto. intros [= <- <-].
+      assert (Gn : forall k nd, get_node (add_edge s1 {| esrc := item; etgt := length (nodes g); ek := EAlias index |}) k = Some nd ->
+                     (k = length (nodes g) /\ nk nd = NAlias) \/ get_node g k = Some nd).
+      { intros k nd. unfold get_node. cbn [add_edge nodes]. rewrite Hn.
+        destruct (Nat.lt_ge_cases k (length (nodes g))) as [L|L].
+        - rewrite nth_error_app1 by exact L. auto.
+        - rewrite nth_error_app2 by exact L. destruct (k - length (nodes g)) as [|j] eqn:E.
+          + cbn. intros [= <-]. left. split; [lia|reflexivity].
+          + cbn. destruct j; discriminate. }
+      split.
+      + apply alias_nondef_spec. intros ed i nd Hin K G. apply Gn in G as [[_ G]|G]; [congruence|].
+        cbn [add_edge edges] in Hin. rewrite He in Hin. destruct Hin as [<-|Hin]; [|exact (AN ed i nd Hin K G)].
+        cbn [etgt] in G. exfalso. unfold get_node in G.
+        assert (X : nth_error (nodes g) (length (nodes g)) = None) by (apply nth_error_None; lia).
+        rewrite X in G. discriminate.
+      + intros nd G. apply Gn in G as [[_ G]|G]; [congruence|]. exfalso. unfold get_node in G.
+        assert (X : nth_error (nodes g) (length (nodes g)) = None) by (apply nth_error_None; lia).
+        rewrite X in G. discriminate.
+  Qed.
+
+  Lemma alias_nondef_export g n e g' o :
+    alias_nondef_b g = true -> export_ u g n e = (g', o) -> alias_nondef_b g' = true.
+  Proof.
+    intros AN. unfold export_. destruct (alist_get N.eqb (exports g) e); [now intros [= <- <-]|].
+    destruct (negb (u_export_name_ok u e)); [now intros [= <- <-]|]. unfold update_node.
+    destruct (get_node g n) as [nd|] eqn:G; [|now intros [= <- <-]]. intros [= <- <-].
+    rewrite alias_nondef_spec in *. intros ed i nd' Hin K G'. cbn [with_maps set_node edges] in Hin.
+    unfold get_node in G'. cbn [with_maps set_node nodes] in G'.
+    change (match nth_error (set_nth (nodes g) n (Some {| nk := nk nd; npkg := npkg nd; nitem := nitem nd; nname := nname nd; nexport := Some e |})) (etgt ed) with
+            | Some (Some nd) => Some nd | _ => None end = Some nd') in G'.
+    rewrite GraphInv.nth_error_set_nth in G'. destruct (Nat.eqb_spec (etgt ed) n) as [E|E].
+    - destruct (n <? length (nodes g)); [|discriminate]. injection G' as <-. cbn [nk].
+      rewrite <- E in G. exact (AN ed i nd Hin K G).
+    - exact (AN ed i nd' Hin K G').
   Qed.
 
   (** the local name equal to the export name is a type definition *)
@@ -219,14 +298,14 @@ Section Stmts.
   Lemma spread_exports_inl item ea da ex : forall names any st any' st',
     spread_exports u item ea da names any st = inl (any', st') ->
     nofree (rs_g st) -> scope_live st -> NoDup (map (ru_intern u) names) ->
-    is_instance_with (rs_g st) item ex ->
+    is_instance_with (rs_g st) item ex -> alias_nondef_b (rs_g st) = true ->
     exists adds : list (name * nat),
       exports (rs_g st') = exports (rs_g st) ++ adds /\
       map fst adds = map (ru_intern u) (export_filter (rs_g st) names) /\
       Forall (fun p => exists nm, fst p = ru_intern u nm /\ alias_witness u item nm (snd p)) adds /\
       any' = (any || negb (is_nil adds)) /\ rs_scope st' = rs_scope st /\ gframe (rs_g st) (rs_g st').
   Proof.
-    induction names as [|nm r IH]; intros any st any' st' H NF SL ND II.
+    induction names as [|nm r IH]; intros any st any' st' H NF SL ND II AN.
     - cbn in H. apply ret_inl in H as [-> ->]. exists []. rewrite app_nil_r, orb_false_r.
       split; [reflexivity|]. split; [reflexivity|]. split; [constructor|]. split; [reflexivity|]. split; [reflexivity|now apply gframe_refl].
     - cbn [map] in ND. inversion ND as [|? ? Hnot ND']; subst. cbn [spread_exports] in H.
@@ -240,7 +319,9 @@ Section Stmts.
       pose proof (scope_live_frame _ _ SL GF1 Sc1) as SL1.
       apply export_item_inl in H2 as [X Sc2]; [|intros k b; apply SL1].
       pose proof (export_gframe u _ _ _ _ _ (gf_free _ _ GF1) X) as GF2.
-      apply export_ok in X as (_ & _ & EX & _).
+      destruct (alias_nondef_alias _ _ _ _ _ NF AN A) as [AN1 ND1].
+      pose proof (alias_nondef_export _ _ _ _ _ AN1 X) as AN2.
+      apply export_ok in X as (_ & _ & EX & _). rewrite (exports_renamed_nondef _ _ ND1) in EX.
       destruct (alias_same_nodes u _ _ _ _ _ NF A) as (_ & _ & EXa & _ & _ & _).
       pose proof (scope_live_frame _ _ SL1 GF2 Sc2) as SL2.
       apply IH in H as (adds & E2 & MF & FA & -> & Sc3 & GF3); auto.
@@ -266,7 +347,7 @@ Section Stmts.
     export_statement u self_name e (EOSpread sp) st = inl (tt, st') ->
     exists item s1 ex adds,
       eval_expr u self_name e st = inl (item, s1) /\ is_instance_with (rs_g s1) item ex /\
-      (NoDup (map (ru_intern u) (map fst ex)) ->
+      (NoDup (map (ru_intern u) (map fst ex)) -> alias_nondef_b (rs_g s1) = true ->
        exports (rs_g st') = exports (rs_g s1) ++ adds /\ adds <> [] /\
        map fst adds = map (ru_intern u) (export_filter (rs_g s1) (map fst ex)) /\
        Forall (fun p => exists nm, fst p = ru_intern u nm /\ alias_witness u item nm (snd p)) adds).
@@ -279,9 +360,11 @@ Section Stmts.
     apply bind_inl in H as (any & s3 & H3 & H).
     assert (II : is_instance_with (rs_g s1) item ex) by (exists nd; auto).
     destruct (classic_nodup_N (map (ru_intern u) (map fst ex))) as [ND|NND].
-    - eapply spread_exports_inl in H3 as (adds & EX & MF & FA & -> & _); eauto; [|exact (gf_free _ _ GF)].
-      cbn [orb] in H. destruct adds as [|a adds]; [discriminate|]. cbn in H. apply ret_inl in H as [_ ->].
-      exists item, s1, ex, (a :: adds). split; auto. split; auto. intros _. repeat split; auto. discriminate.
+    - destruct (alias_nondef_b (rs_g s1)) eqn:AN.
+      + eapply spread_exports_inl in H3 as (adds & EX & MF & FA & -> & _); eauto; [|exact (gf_free _ _ GF)].
+        cbn [orb] in H. destruct adds as [|a adds]; [discriminate|]. cbn in H. apply ret_inl in H as [_ ->].
+        exists item, s1, ex, (a :: adds). split; auto. split; auto. intros _ _. repeat split; auto. discriminate.
+      + exists item, s1, ex, []. split; auto. split; auto. intros _ X. congruence.
     - exists item, s1, ex, []. split; auto. split; auto. intros ND. contradiction.
   Qed.
 End Stmts.
